@@ -344,6 +344,96 @@ def run_deques(st):
     apischema.cache.reset()
 
 
+LATE_SRC = """
+@dataclass
+class Pt:
+    x: int = 1
+    y: int = 2
+@dataclass
+class Pt3(Pt):
+    z: int = 3
+class Plain3(Pt3):
+    pass
+def reg_owner():
+    def norm1(self) -> int: return self.x + self.y
+    serialized(owner=Pt)(norm1)
+def reg_func():
+    @serialized
+    def vol(p: Pt3) -> int: return p.x * p.y * p.z
+def reg_alias():
+    def tag(self) -> str: return "t%d" % self.x
+    serialized("label", owner=Pt)(tag)
+REG = {"owner": reg_owner, "func": reg_func, "alias": reg_alias}
+"""
+
+# registration -> (classes it applies to, output key, function of the instance)
+LATE_MEMBERS = {
+    "owner": ({"Pt", "Pt3", "Plain3"}, "norm1", lambda o: o.x + o.y),
+    "func": ({"Pt3", "Plain3"}, "vol", lambda o: o.x * o.y * o.z),
+    "alias": ({"Pt", "Pt3", "Plain3"}, "label", lambda o: "t%d" % o.x),
+}
+
+
+def run_late_members(st):
+    """bounded histories on one family of classes: serialized methods registered from outside the class body (the two
+    documented forms, with and without an alias) in every order, before / after a first serialization of every class of
+    the family (every subset of 'warm-up' observations); after each step, the image of each class is its fields plus the
+    members registered so far for it or a base — whatever was serialized before"""
+    import sys
+    import typing
+
+    from ..realize import PRELUDE, exec_source
+
+    regs = list(LATE_MEMBERS)
+    histories = []
+    for n in range(0, len(regs) + 1):
+        for seq in itertools.permutations(regs, n):
+            histories.append(seq)
+    for seq in histories:
+        for warm in (False, True):  # observe (and so compile) before each registration, or only at the end
+            mod = exec_source(PRELUDE + LATE_SRC)
+            try:
+                done = []
+
+                def observe(step):
+                    for cname, val in (("Pt", mod.Pt(1, 2)), ("Pt3", mod.Pt3(2, 3, 4)), ("Plain3", mod.Plain3(3, 4, 5))):
+                        exp = {"x": val.x, "y": val.y}
+                        if cname != "Pt":
+                            exp["z"] = val.z
+                        for r in done:
+                            classes, key, fn = LATE_MEMBERS[r]
+                            if cname in classes:
+                                exp[key] = fn(val)
+                        cls = getattr(mod, cname)
+                        st.case("late", seq, warm, step, cname)
+                        try:
+                            outs = {
+                                "serialize(cls, v)": apischema.serialize(cls, val),
+                                "serialize(v)": apischema.serialize(val),
+                                "serialize(List[cls], [v])[0]": apischema.serialize(typing.List[cls], [val])[0],
+                                "serialize(Pt, v) keys": None,
+                            }
+                        except Exception as e:
+                            st.violation({"label": "late:" + cname, "signature": {"kind": "serialize_exception", "exc": type(e).__name__, "shape": "late_members"}, "what": f"{cname} after registrations {done} (history {seq}, warm={warm}): {e!r}"[:300]})
+                            continue
+                        for how, got in outs.items():
+                            if got is not None and got != exp:
+                                st.violation({"label": "late:" + cname, "signature": {"kind": "image", "shape": "late_members", "warm": warm, "how": how}, "what": f"{how} of {cname} after registering {done} (history {seq}, observed before each registration: {warm}) = {got!r}, expected {exp!r}"[:400]})
+
+                if warm:
+                    observe(0)
+                for i, r in enumerate(seq):
+                    mod.REG[r]()
+                    done.append(r)
+                    if warm or i == len(seq) - 1:
+                        observe(i + 1)
+                if not seq and not warm:
+                    observe(0)
+            finally:
+                sys.modules.pop(mod.__name__, None)
+                apischema.cache.reset()
+
+
 def work(tier, widx, nworkers, st, extra):
     import os
 
@@ -354,6 +444,13 @@ def work(tier, widx, nworkers, st, extra):
             import traceback
 
             st.violation({"signature": {"kind": "harness_error"}, "harness_error": True, "what": "deques", "traceback": traceback.format_exc()[-2000:]})
+    if widx == (1 % nworkers) and os.environ.get("VERIF_ONLY") in (None, "", "late"):
+        try:
+            run_late_members(st)
+        except Exception:
+            import traceback
+
+            st.violation({"signature": {"kind": "harness_error"}, "harness_error": True, "what": "late members", "traceback": traceback.format_exc()[-2000:]})
     for i, label, spec in dc.my_types(tier, widx, nworkers):
         run_type(i, label, spec, tier, st)
 
@@ -366,7 +463,7 @@ def main(tier: str, t0: float) -> int:
         st,
         t0,
         rule=RULE,
-        coverage_extra={"exhaustive": True, "bounds": {"nesting": 2}, "worlds": ["typed deques: image of Deque[X] == image of List[X] for 5 item types x 3 aliasers"]},
+        coverage_extra={"exhaustive": True, "bounds": {"nesting": 2}, "worlds": ["typed deques: image of Deque[X] == image of List[X] for 5 item types x 3 aliasers", "late members: every order of 0..3 serialized methods registered from outside the class body (owner=, typed first parameter, alias) x observed before each registration or only at the end x 3 classes of one family x 3 ways of serializing"]},
         assumptions=[
             "reference image model vf/refmodel/ser.py (aliases, collections as lists, enums by value, flattened merge, serialized methods, one omission formula)",
             "values are of their type (C04 quantifies over values of T)",
